@@ -1,5 +1,5 @@
 (* Proofs about the token-level SimpleMRS model (C01). *)
-From Coq Require Import List NArith ZArith Bool Arith Lia.
+From Coq Require Import List NArith ZArith Bool Arith Lia Permutation.
 From PyD Require Import Base.Str Base.Dec Model.Hier Model.Mrs Model.Iso Model.SimpleMrs.
 Import ListNotations.
 
@@ -13,3 +13,984 @@ Proof.
     + apply N.eqb_eq in E2. subst c. cbn [unescape]. rewrite N.eqb_refl. rewrite IH. reflexivity.
     + cbn [unescape]. rewrite E1, IH. reflexivity.
 Qed.
+
+(* ------------------------------------------------------------------ *)
+(* dictionaries *)
+
+Lemma str_eqb_neq a b : a <> b -> str_eqb a b = false.
+Proof. intros H. destruct (str_eqb a b) eqn:E; [apply str_eqb_spec in E; contradiction | reflexivity]. Qed.
+
+Lemma dict_set_notin {A} k (v : A) d : ~ In k (map fst d) -> dict_set k v d = d ++ [(k, v)].
+Proof.
+  induction d as [|[k' v'] d IH]; cbn [dict_set map fst In app]; intros H; [reflexivity|].
+  rewrite str_eqb_neq by (intros E; apply H; left; exact E).
+  rewrite IH by (intros E; apply H; right; exact E). reflexivity.
+Qed.
+
+Lemma dict_get_notin {A} k (d : list (str * A)) : ~ In k (map fst d) -> dict_get k d = None.
+Proof.
+  induction d as [|[k' v'] d IH]; cbn [dict_get map fst In]; intros H; [reflexivity|].
+  rewrite str_eqb_neq by (intros E; apply H; left; exact E). apply IH. intros E; apply H; right; exact E.
+Qed.
+
+Lemma dict_get_In {A} k (v : A) d : NoDup (map fst d) -> (dict_get k d = Some v <-> In (k, v) d).
+Proof.
+  induction d as [|[k' v'] d IH]; cbn [dict_get map fst In]; intros Hnd.
+  - split; [discriminate | tauto].
+  - inversion Hnd as [|? ? Hn Hnd']; subst. destruct (str_eqb k' k) eqn:E.
+    + apply str_eqb_spec in E. subst k'. split.
+      * intros H; inversion H; subst; left; reflexivity.
+      * intros [H|H]; [inversion H; reflexivity|]. exfalso. apply Hn. change k with (fst (k, v)). apply in_map. exact H.
+    + rewrite IH by exact Hnd'. split; [tauto|]. intros [H|H]; [|exact H].
+      inversion H; subst. rewrite str_eqb_refl in E. discriminate.
+Qed.
+
+Lemma dict_get_perm {A} k (d d' : list (str * A)) :
+  NoDup (map fst d) -> Permutation d d' -> dict_get k d = dict_get k d'.
+Proof.
+  intros Hnd Hp.
+  assert (Hnd' : NoDup (map fst d')) by (eapply Permutation_NoDup; [apply Permutation_map; exact Hp | exact Hnd]).
+  destruct (dict_get k d) as [v|] eqn:E.
+  - symmetry. apply dict_get_In; [exact Hnd'|]. eapply Permutation_in; [exact Hp|]. apply dict_get_In; assumption.
+  - destruct (dict_get k d') as [v|] eqn:E'; [|reflexivity].
+    apply dict_get_In in E'; [|exact Hnd']. apply Permutation_sym in Hp.
+    eapply Permutation_in in E'; [|exact Hp]. apply dict_get_In in E'; [congruence | exact Hnd].
+Qed.
+
+Lemma dict_get_del_same {A} k (d : list (str * A)) : NoDup (map fst d) -> dict_get k (dict_del k d) = None.
+Proof.
+  induction d as [|[k' v'] d IH]; cbn [dict_del dict_get map fst]; intros Hnd; [reflexivity|].
+  inversion Hnd as [|? ? Hn Hnd']; subst. destruct (str_eqb k k') eqn:E.
+  - apply str_eqb_spec in E. subst. apply dict_get_notin. exact Hn.
+  - cbn [dict_get]. rewrite str_eqb_neq; [apply IH; exact Hnd'|]. intros X; subst. rewrite str_eqb_refl in E. discriminate.
+Qed.
+
+Lemma dict_get_del_other {A} k k' (d : list (str * A)) : k <> k' -> dict_get k' (dict_del k d) = dict_get k' d.
+Proof.
+  intros Hne. induction d as [|[k2 v2] d IH]; cbn [dict_del dict_get]; [reflexivity|].
+  destruct (str_eqb k k2) eqn:E.
+  - apply str_eqb_spec in E. subst. rewrite str_eqb_neq by exact Hne. reflexivity.
+  - cbn [dict_get]. rewrite IH. reflexivity.
+Qed.
+
+Lemma dict_del_keys_incl {A} k (d : list (str * A)) x : In x (map fst (dict_del k d)) -> In x (map fst d).
+Proof.
+  induction d as [|[k2 v2] d IH]; cbn [dict_del map fst In]; [tauto|].
+  destruct (str_eqb k k2); cbn [map fst In]; [tauto|]. intros [H|H]; [left; exact H | right; apply IH; exact H].
+Qed.
+
+Lemma dict_del_nodup {A} k (d : list (str * A)) : NoDup (map fst d) -> NoDup (map fst (dict_del k d)).
+Proof.
+  induction d as [|[k2 v2] d IH]; cbn [dict_del map fst]; intros Hnd; [constructor|].
+  inversion Hnd as [|? ? Hn Hnd']; subst. destruct (str_eqb k k2); [exact Hnd'|].
+  cbn [map fst]. constructor; [|apply IH; exact Hnd']. intros H. apply Hn. eapply dict_del_keys_incl. exact H.
+Qed.
+
+Lemma dict_del_In {A} k (d : list (str * A)) x : In x (dict_del k d) -> In x d.
+Proof.
+  induction d as [|[k2 v2] d IH]; cbn [dict_del In]; [tauto|].
+  destruct (str_eqb k k2); cbn [In]; [tauto|]. intros [H|H]; [left; exact H | right; apply IH; exact H].
+Qed.
+
+Lemma dict_get_set_same' {A} k (v : A) d : dict_get k (dict_set k v d) = Some v.
+Proof.
+  induction d as [|[k' v'] d IH]; cbn [dict_set dict_get]; [rewrite str_eqb_refl; reflexivity|].
+  destruct (str_eqb k' k) eqn:E; cbn [dict_get]; rewrite E; [reflexivity | exact IH].
+Qed.
+
+Lemma dict_get_set_other' {A} k k' (v : A) d : k <> k' -> dict_get k' (dict_set k v d) = dict_get k' d.
+Proof.
+  intros Hne. induction d as [|[k2 v2] d IH]; cbn [dict_set dict_get].
+  - rewrite str_eqb_neq by exact Hne. reflexivity.
+  - destruct (str_eqb k2 k) eqn:E; cbn [dict_get].
+    + apply str_eqb_spec in E. subst. rewrite str_eqb_neq by exact Hne. reflexivity.
+    + rewrite IH. reflexivity.
+Qed.
+
+(* ------------------------------------------------------------------ *)
+(* the two insertion sorts are permutations *)
+
+Lemma insert_prop_perm x l : Permutation (insert_prop x l) (x :: l).
+Proof.
+  induction l as [|y l IH]; cbn [insert_prop]; [apply Permutation_refl|].
+  destruct (_ || _).
+  - eapply perm_trans; [apply perm_skip; exact IH | apply perm_swap].
+  - apply Permutation_refl.
+Qed.
+
+Lemma sort_props_perm l : Permutation (sort_props l) l.
+Proof.
+  induction l as [|x l IH]; cbn; [constructor|].
+  eapply perm_trans; [apply insert_prop_perm | apply perm_skip; exact IH].
+Qed.
+
+Lemma insert_role_perm x l : Permutation (insert_role x l) (x :: l).
+Proof.
+  induction l as [|y l IH]; cbn [insert_role]; [apply Permutation_refl|].
+  destruct (role_ltb _ _).
+  - eapply perm_trans; [apply perm_skip; exact IH | apply perm_swap].
+  - apply Permutation_refl.
+Qed.
+
+Lemma sort_roles_perm l : Permutation (sort_roles l) l.
+Proof.
+  induction l as [|x l IH]; cbn; [constructor|].
+  eapply perm_trans; [apply insert_role_perm | apply perm_skip; exact IH].
+Qed.
+
+(* ------------------------------------------------------------------ *)
+(* variables and their properties *)
+
+Definition getp (v : str) (d : vprops) : list (str * str) :=
+  match dict_get v d with Some p => p | None => [] end.
+
+Definition norm_kv (kv : str * str) : Prop := ascii_upper (fst kv) = fst kv /\ ascii_lower (snd kv) = snd kv.
+Definition norm_props (ps : list (str * str)) : Prop := NoDup (map fst ps) /\ Forall norm_kv ps.
+Definition vp_ok (vp : vprops) : Prop := NoDup (map fst vp) /\ Forall (fun kv => norm_props (snd kv)) vp.
+
+Lemma norm_props_perm ps ps' : Permutation ps ps' -> norm_props ps -> norm_props ps'.
+Proof.
+  intros Hp [Hnd Hf]. split.
+  - eapply Permutation_NoDup; [apply Permutation_map; exact Hp | exact Hnd].
+  - rewrite Forall_forall in *. intros x Hx. apply Hf. eapply Permutation_in; [apply Permutation_sym; exact Hp | exact Hx].
+Qed.
+
+Lemma vp_ok_getp vp v : vp_ok vp -> norm_props (getp v vp).
+Proof.
+  intros [Hnd Hf]. unfold getp. destruct (dict_get v vp) as [ps|] eqn:E.
+  - apply dict_get_In in E; [|exact Hnd]. rewrite Forall_forall in Hf. apply (Hf _ E).
+  - split; constructor.
+Qed.
+
+Lemma vp_ok_del vp v : vp_ok vp -> vp_ok (dict_del v vp).
+Proof.
+  intros [Hnd Hf]. split; [apply dict_del_nodup; exact Hnd|].
+  rewrite Forall_forall in *. intros x Hx. apply Hf. eapply dict_del_In. exact Hx.
+Qed.
+
+Definition ptoks (kv : str * str) : list stok := [TFEAT (fst kv); TSYM (snd kv)].
+
+Lemma dec_props_enc L : forall acc rest,
+  NoDup (map fst L) -> (forall k, In k (map fst L) -> ~ In k (map fst acc)) -> Forall norm_kv L ->
+  dec_props (flat_map ptoks L ++ TRB :: rest) acc = Some (acc ++ L, rest).
+Proof.
+  induction L as [|[k v] L IH]; intros acc rest Hnd Hdis Hn.
+  - cbn. rewrite app_nil_r. reflexivity.
+  - cbn [flat_map ptoks fst snd app dec_props].
+    inversion Hnd as [|? ? Hk Hnd']; subst. inversion Hn as [|? ? [Hu Hl] Hn']; subst. cbn [fst snd] in Hu, Hl.
+    rewrite Hu, Hl. rewrite dict_set_notin by (apply Hdis; left; reflexivity).
+    rewrite IH; [rewrite <- app_assoc; reflexivity | exact Hnd' | | exact Hn'].
+    intros k' Hk'. rewrite map_app, in_app_iff. cbn. intros [H|[H|[]]].
+    + apply (Hdis k'); [right; exact Hk' | exact H].
+    + subst. contradiction.
+Qed.
+
+(* the encoder's remaining properties vp, the decoder's variables vars and the
+   original properties vp0: each variable is either untouched (its
+   properties still to be emitted, none decoded) or done (nothing left to
+   emit, the decoded properties are the original ones in priority order) *)
+Definition R (vp0 vp vars : vprops) : Prop :=
+  forall v, (getp v vp = getp v vp0 /\ getp v vars = []) \/
+            (getp v vp = [] /\ getp v vars = sort_props (getp v vp0)).
+
+Lemma getp_set_same v ps d : getp v (dict_set v ps d) = ps.
+Proof. unfold getp. rewrite dict_get_set_same'. reflexivity. Qed.
+Lemma getp_set_other v w ps d : v <> w -> getp w (dict_set v ps d) = getp w d.
+Proof. intros H. unfold getp. rewrite dict_get_set_other' by exact H. reflexivity. Qed.
+Lemma getp_set_getp v w d : getp w (dict_set v (getp v d) d) = getp w d.
+Proof.
+  destruct (str_eqb v w) eqn:E.
+  - apply str_eqb_spec in E. subst. apply getp_set_same.
+  - apply getp_set_other. intros X; subst. rewrite str_eqb_refl in E. discriminate.
+Qed.
+
+Definition not_lb (ts : list stok) : Prop := match ts with TLB :: _ => False | _ => True end.
+
+Lemma enc_dec_var vp0 v vp vars tv vp' rest :
+  vp_ok vp -> R vp0 vp vars -> ascii_lower v = v -> enc_var v vp = Some (tv, vp') -> not_lb rest ->
+  exists vars', dec_var (tv ++ rest) vars = Some (v, rest, vars') /\ R vp0 vp' vars' /\ vp_ok vp'.
+Proof.
+  intros Hok HR Hlow Henc Hrest. unfold enc_var in Henc.
+  assert (Hnp := vp_ok_getp vp v Hok). unfold getp in Hnp.
+  destruct (dict_get v vp) as [[|p ps]|] eqn:Eg.
+  - (* empty property map *)
+    inversion Henc; subst. cbn [app dec_var]. rewrite Hlow.
+    exists (dict_set v (getp v vars) vars). split; [|split; [|exact Hok]].
+    + unfold getp. destruct rest as [|[] rest]; try reflexivity. contradiction.
+    + intros w. rewrite getp_set_getp. apply HR.
+  - destruct (var_type v) as [t|]; [|discriminate]. inversion Henc; subst. clear Henc.
+    cbn [app dec_var]. rewrite Hlow. unfold enc_props. rewrite <- app_assoc. cbn [app].
+    assert (Hgv : getp v vp = p :: ps) by (unfold getp; rewrite Eg; reflexivity).
+    destruct (HR v) as [[Hv0 Hvars]|[Hv0 _]]; [|rewrite Hgv in Hv0; discriminate]. rewrite Hgv in Hv0.
+    fold (getp v vars). rewrite Hvars.
+    pose proof (norm_props_perm _ _ (Permutation_sym (sort_props_perm (p :: ps))) Hnp) as [Hnd Hf].
+    change (fun kv : str * str => [TFEAT (fst kv); TSYM (snd kv)]) with ptoks.
+    rewrite dec_props_enc; [| exact Hnd | intros k _ [] | exact Hf]. cbn [app].
+    eexists. split; [reflexivity|]. split; [|apply vp_ok_del; exact Hok].
+    intros w. destruct (str_eqb v w) eqn:E.
+    + apply str_eqb_spec in E. subst w. right. rewrite getp_set_same. unfold getp at 1.
+      rewrite dict_get_del_same by apply Hok. split; [reflexivity|]. rewrite <- Hv0. reflexivity.
+    + assert (v <> w) by (intros X; subst; rewrite str_eqb_refl in E; discriminate).
+      rewrite getp_set_other by assumption. unfold getp at 1 4. rewrite dict_get_del_other by assumption.
+      apply HR.
+  - inversion Henc; subst. cbn [app dec_var]. rewrite Hlow.
+    exists (dict_set v (getp v vars) vars). split; [|split; [|exact Hok]].
+    + unfold getp. destruct rest as [|[] rest]; try reflexivity. contradiction.
+    + intros w. rewrite getp_set_getp. apply HR.
+Qed.
+
+(* ------------------------------------------------------------------ *)
+(* arguments *)
+
+Definition norm_arg (kv : str * str) : Prop :=
+  ascii_upper (fst kv) = fst kv /\ (fst kv <> CARG_ROLE -> ascii_lower (snd kv) = snd kv).
+
+Lemma enc_args_head L vp ta vp' rest : enc_args L vp = Some (ta, vp') -> not_lb (ta ++ TRB :: rest).
+Proof.
+  destruct L as [|[r a] L]; cbn [enc_args]; intros H.
+  - inversion H; subst. exact I.
+  - destruct (str_eqb r CARG_ROLE).
+    + destruct (enc_args L vp) as [[ts v2]|]; [|discriminate]. inversion H; subst. exact I.
+    + destruct (enc_var a vp) as [[tv vp1]|]; [|discriminate].
+      destruct (enc_args L vp1) as [[ts v2]|]; [|discriminate]. inversion H; subst. exact I.
+Qed.
+
+Lemma enc_dec_args vp0 L : forall acc vp vars ta vp' fuel rest,
+  NoDup (map fst L) -> (forall k, In k (map fst L) -> ~ In k (map fst acc)) -> Forall norm_arg L ->
+  vp_ok vp -> R vp0 vp vars -> enc_args L vp = Some (ta, vp') -> (length ta < fuel)%nat ->
+  exists vars', dec_args fuel (ta ++ TRB :: rest) acc vars = Some (acc ++ L, TRB :: rest, vars')
+                /\ R vp0 vp' vars' /\ vp_ok vp'.
+Proof.
+  induction L as [|[r a] L IH]; intros acc vp vars ta vp' fuel rest Hnd Hdis Hn Hok HR Henc Hfuel.
+  - cbn in Henc. inversion Henc; subst. destruct fuel as [|fuel]; [cbn in Hfuel; lia|].
+    cbn. rewrite app_nil_r. eexists; split; [reflexivity | split; assumption].
+  - cbn [enc_args] in Henc. inversion Hnd as [|? ? Hk Hnd']; subst.
+    inversion Hn as [|? ? [Hu Hl] Hn']; subst. cbn [fst snd] in Hu, Hl.
+    assert (Hdis' : forall k, In k (map fst L) -> ~ In k (map fst (acc ++ [(r, a)]))).
+    { intros k' Hk'. rewrite map_app, in_app_iff. cbn. intros [H|[H|[]]].
+      - apply (Hdis k'); [right; exact Hk' | exact H].
+      - subst. contradiction. }
+    destruct (str_eqb r CARG_ROLE) eqn:Ec.
+    + destruct (enc_args L vp) as [[ts v2]|] eqn:Ea; [|discriminate]. inversion Henc; subst. clear Henc.
+      destruct fuel as [|fuel]; [cbn in Hfuel; lia|].
+      cbn [app dec_args]. rewrite Hu, Ec. rewrite unescape_escape.
+      rewrite dict_set_notin by (apply Hdis; left; reflexivity).
+      destruct (IH (acc ++ [(r, a)]) vp vars ts vp' fuel rest Hnd' Hdis' Hn' Hok HR Ea) as [vars' [Hd [HR' Hok']]].
+      { cbn in Hfuel. lia. }
+      exists vars'. rewrite Hd. rewrite <- app_assoc. split; [reflexivity | split; assumption].
+    + destruct (enc_var a vp) as [[tv vp1]|] eqn:Ev; [|discriminate].
+      destruct (enc_args L vp1) as [[ts v2]|] eqn:Ea; [|discriminate]. inversion Henc; subst. clear Henc.
+      destruct fuel as [|fuel]; [cbn in Hfuel; lia|].
+      cbn [app dec_args]. rewrite Hu, Ec. rewrite <- app_assoc.
+      assert (Hne : r <> CARG_ROLE) by (intros X; subst; rewrite str_eqb_refl in Ec; discriminate).
+      destruct (enc_dec_var vp0 a vp vars tv vp1 (ts ++ TRB :: rest) Hok HR (Hl Hne) Ev
+                  (enc_args_head _ _ _ _ _ Ea)) as [vars1 [Hd1 [HR1 Hok1]]].
+      rewrite Hd1. rewrite dict_set_notin by (apply Hdis; left; reflexivity).
+      destruct (IH (acc ++ [(r, a)]) vp1 vars1 ts vp' fuel rest Hnd' Hdis' Hn' Hok1 HR1 Ea) as [vars' [Hd [HR' Hok']]].
+      { cbn in Hfuel. rewrite app_length in Hfuel. lia. }
+      exists vars'. rewrite Hd. rewrite <- app_assoc. split; [reflexivity | split; assumption].
+Qed.
+
+(* ------------------------------------------------------------------ *)
+(* predications *)
+
+Definition proj_ep (l : bool) (e : xep) : xep :=
+  {| x_pred := x_pred e; x_label := x_label e; x_args := sort_roles (x_args e);
+     x_lnk := if l then x_lnk e else LNone; x_surface := if l then x_surface e else None |}.
+
+Definition ep_wf (e : xep) : Prop :=
+  normalize_pred (x_pred e) = x_pred e /\ ascii_lower (x_label e) = x_label e /\
+  NoDup (map fst (x_args e)) /\ Forall norm_arg (x_args e).
+
+Definition not_lnk (ts : list stok) : Prop := match ts with TLNK _ :: _ => False | _ => True end.
+Definition not_dq (ts : list stok) : Prop := match ts with TDQ _ :: _ => False | _ => True end.
+
+Lemma dec_pred_enc cls p r : normalize_pred p = p -> dec_pred (enc_pred cls p :: r) = Some (p, r).
+Proof.
+  intros H. unfold enc_pred. destruct (needs_quote p); [|destruct (cls p)]; cbn [dec_pred];
+    rewrite ?unescape_escape, H; reflexivity.
+Qed.
+
+Lemma dec_lnk_enc k r : not_lnk r -> dec_lnk (enc_lnk_tok k ++ r) = (k, r).
+Proof.
+  intros H. destruct k; cbn; try reflexivity. destruct r as [|[] r]; try reflexivity. contradiction.
+Qed.
+
+Lemma dec_dq_enc s r : not_dq r -> dec_dq (enc_surface s ++ r) = (s, r).
+Proof.
+  intros H. destruct s as [s|]; cbn; [rewrite unescape_escape; reflexivity|].
+  destruct r as [|[] r]; try reflexivity. contradiction.
+Qed.
+
+Lemma norm_arg_perm l l' : Permutation l l' -> Forall norm_arg l -> Forall norm_arg l'.
+Proof.
+  intros Hp Hf. rewrite Forall_forall in *. intros x Hx. apply Hf.
+  eapply Permutation_in; [apply Permutation_sym; exact Hp | exact Hx].
+Qed.
+
+Lemma enc_dec_rel vp0 cls l e vp vars te vp' fuel rest :
+  ep_wf e -> vp_ok vp -> R vp0 vp vars -> enc_rel cls l e vp = Some (te, vp') -> (length te <= fuel)%nat ->
+  exists vars', dec_rel fuel (te ++ rest) vars = Some (proj_ep l e, rest, vars') /\ R vp0 vp' vars' /\ vp_ok vp'.
+Proof.
+  intros [Hp [Hlbl [Hnd Hn]]] Hok HR Henc Hfuel. unfold enc_rel in Henc.
+  destruct (enc_args (sort_roles (x_args e)) vp) as [[ta vp1]|] eqn:Ea; [|discriminate].
+  inversion Henc; subst. clear Henc.
+  pose proof (sort_roles_perm (x_args e)) as Hperm.
+  assert (Hnd' : NoDup (map fst (sort_roles (x_args e)))).
+  { eapply Permutation_NoDup; [apply Permutation_map; apply Permutation_sym; exact Hperm | exact Hnd]. }
+  assert (Hn' : Forall norm_arg (sort_roles (x_args e))) by (eapply norm_arg_perm; [apply Permutation_sym; exact Hperm | exact Hn]).
+  assert (Hlen : (length ta < fuel)%nat).
+  { cbn [length] in Hfuel. rewrite app_length in Hfuel. cbn [length] in Hfuel. rewrite app_length in Hfuel. lia. }
+  destruct (enc_dec_args vp0 _ [] vp vars ta vp' fuel rest Hnd' (fun _ _ F => F) Hn' Hok HR Ea Hlen)
+    as [vars' [Hd [HR' Hok']]].
+  exists vars'. split; [|split; assumption].
+  cbn [app dec_rel]. rewrite dec_pred_enc by exact Hp.
+  assert (Htail : forall lk surf,
+             dec_rel_tail fuel (x_pred e) lk surf
+               (([TFEAT LBL; TSYM (x_label e)] ++ ta ++ [TRB]) ++ rest) vars =
+             Some ({| x_pred := x_pred e; x_label := x_label e; x_args := sort_roles (x_args e);
+                      x_lnk := lk; x_surface := surf |}, rest, vars')).
+  { intros lk surf. cbn [app dec_rel_tail]. rewrite str_eqb_refl. rewrite <- app_assoc. cbn [app].
+    rewrite Hd. rewrite Hlbl. reflexivity. }
+  destruct l.
+  - rewrite <- !app_assoc. rewrite dec_lnk_enc.
+    2:{ destruct (x_surface e); exact I. }
+    rewrite dec_dq_enc by exact I. exact (Htail _ _).
+  - cbn [app]. cbn [dec_lnk dec_dq]. change (TFEAT LBL :: TSYM (x_label e) :: (ta ++ [TRB]) ++ rest)
+      with (([TFEAT LBL; TSYM (x_label e)] ++ ta ++ [TRB]) ++ rest). apply Htail.
+Qed.
+
+Lemma enc_rel_head cls l e vp te vp' : enc_rel cls l e vp = Some (te, vp') -> exists t, te = TLB :: t.
+Proof.
+  unfold enc_rel. destruct (enc_args _ _) as [[ta v1]|]; [|discriminate]. intros H; inversion H; subst.
+  eexists. reflexivity.
+Qed.
+
+Lemma enc_dec_rels vp0 cls l rels : forall acc vp vars tr vp' fuel rest,
+  Forall ep_wf rels -> vp_ok vp -> R vp0 vp vars -> enc_rels cls l rels vp = Some (tr, vp') ->
+  (length tr < fuel)%nat ->
+  exists vars', dec_rels fuel (tr ++ TRA :: rest) acc vars = Some (acc ++ map (proj_ep l) rels, rest, vars')
+                /\ R vp0 vp' vars' /\ vp_ok vp'.
+Proof.
+  induction rels as [|e rels IH]; intros acc vp vars tr vp' fuel rest Hwf Hok HR Henc Hfuel.
+  - cbn in Henc. inversion Henc; subst. destruct fuel as [|fuel]; [cbn in Hfuel; lia|].
+    cbn. rewrite app_nil_r. eexists; split; [reflexivity | split; assumption].
+  - cbn [enc_rels] in Henc. inversion Hwf as [|? ? He Hwf']; subst.
+    destruct (enc_rel cls l e vp) as [[te vp1]|] eqn:Ee; [|discriminate].
+    destruct (enc_rels cls l rels vp1) as [[ts vp2]|] eqn:Er; [|discriminate].
+    inversion Henc; subst. clear Henc.
+    destruct fuel as [|fuel]; [cbn in Hfuel; lia|].
+    rewrite app_length in Hfuel.
+    destruct (enc_rel_head _ _ _ _ _ _ Ee) as [t Ht].
+    destruct (enc_dec_rel vp0 cls l e vp vars te vp1 fuel (ts ++ TRA :: rest) He Hok HR Ee) as [vars1 [Hd1 [HR1 Hok1]]].
+    { lia. }
+    destruct (IH (acc ++ [proj_ep l e]) vp1 vars1 ts vp' fuel rest Hwf' Hok1 HR1 Er) as [vars' [Hd [HR' Hok']]].
+    { subst te. cbn [length] in Hfuel. lia. }
+    exists vars'. split; [|split; assumption].
+    rewrite <- app_assoc. cbn [dec_rels]. subst te. cbn [app]. cbn [app] in Hd1. rewrite Hd1.
+    rewrite Hd. cbn [map]. rewrite <- app_assoc. reflexivity.
+Qed.
+
+(* ------------------------------------------------------------------ *)
+(* constraints *)
+
+Lemma R_set_getp vp0 vp vars v : R vp0 vp vars -> R vp0 vp (dict_set v (getp v vars) vars).
+Proof. intros HR w. rewrite getp_set_getp. apply HR. Qed.
+
+Lemma dec_var_plain v rest vars : ascii_lower v = v -> not_lb rest ->
+  dec_var (TSYM v :: rest) vars = Some (v, rest, dict_set v (getp v vars) vars).
+Proof.
+  intros Hl Hr. cbn [dec_var]. rewrite Hl. unfold getp.
+  destruct rest as [|[] rest]; try reflexivity. contradiction.
+Qed.
+
+Definition c3_lower (c : cons3) : Prop :=
+  let '(a, rel, b) := c in ascii_lower a = a /\ ascii_lower rel = rel /\ ascii_lower b = b.
+
+Lemma enc_dec_hcons vp0 vp hs : forall acc vars fuel rest,
+  Forall c3_lower hs -> R vp0 vp vars -> (length (enc_hcons hs) < fuel)%nat ->
+  exists vars', dec_conses fuel (enc_hcons hs ++ TRA :: rest) acc vars = Some (acc ++ hs, rest, vars')
+                /\ R vp0 vp vars'.
+Proof.
+  induction hs as [|[[hi rel] lo] hs IH]; intros acc vars fuel rest Hl HR Hfuel.
+  - destruct fuel as [|fuel]; [cbn in Hfuel; lia|]. cbn. rewrite app_nil_r. eexists; split; [reflexivity | exact HR].
+  - inversion Hl as [|? ? Hc Hl']; subst. cbn in Hc. destruct Hc as [H1 [H2 H3]].
+    destruct fuel as [|fuel]; [cbn in Hfuel; lia|].
+    cbn [enc_hcons flat_map app dec_conses]. unfold dec_cons1.
+    rewrite dec_var_plain by (exact H1 || exact I).
+    rewrite dec_var_plain; [| exact H3 |].
+    2:{ fold (enc_hcons hs). destruct hs as [|[[a b] c] hs']; exact I. }
+    rewrite H2. fold (enc_hcons hs).
+    destruct (IH (acc ++ [(hi, rel, lo)]) (dict_set lo (getp lo (dict_set hi (getp hi vars) vars)) (dict_set hi (getp hi vars) vars))
+                fuel rest Hl') as [vars' [Hd HR']].
+    { apply R_set_getp. apply R_set_getp. exact HR. }
+    { cbn [enc_hcons flat_map app length] in Hfuel. fold (enc_hcons hs) in Hfuel. lia. }
+    exists vars'. split; [|exact HR']. etransitivity; [exact Hd|]. rewrite <- app_assoc. reflexivity.
+Qed.
+
+Lemma enc_var_head v vp tv vp' : enc_var v vp = Some (tv, vp') -> exists t, tv = TSYM v :: t.
+Proof.
+  unfold enc_var. destruct (dict_get v vp) as [[|p ps]|]; try (intros H; inversion H; subst; eexists; reflexivity).
+  destruct (var_type v); [|discriminate]. intros H; inversion H; subst. eexists; reflexivity.
+Qed.
+
+Lemma enc_icons_head ics vp ti vp' rest : enc_icons ics vp = Some (ti, vp') -> not_lb (ti ++ TRA :: rest).
+Proof.
+  destruct ics as [|[[a rel] b] ics]; cbn [enc_icons]; intros H.
+  - inversion H; subst. exact I.
+  - destruct (enc_var a vp) as [[ta vp1]|] eqn:Ea; [|discriminate].
+    destruct (enc_var b vp1) as [[tb vp2]|]; [|discriminate].
+    destruct (enc_icons ics vp2) as [[ts vp3]|]; [|discriminate]. inversion H; subst.
+    destruct (enc_var_head _ _ _ _ Ea) as [t ->]. exact I.
+Qed.
+
+Lemma enc_dec_icons vp0 ics : forall acc vp vars ti vp' fuel rest,
+  Forall c3_lower ics -> vp_ok vp -> R vp0 vp vars -> enc_icons ics vp = Some (ti, vp') ->
+  (length ti < fuel)%nat ->
+  exists vars', dec_conses fuel (ti ++ TRA :: rest) acc vars = Some (acc ++ ics, rest, vars')
+                /\ R vp0 vp' vars' /\ vp_ok vp'.
+Proof.
+  induction ics as [|[[a rel] b] ics IH]; intros acc vp vars ti vp' fuel rest Hl Hok HR Henc Hfuel.
+  - cbn in Henc. inversion Henc; subst. destruct fuel as [|fuel]; [cbn in Hfuel; lia|].
+    cbn. rewrite app_nil_r. eexists; split; [reflexivity | split; assumption].
+  - cbn [enc_icons] in Henc. inversion Hl as [|? ? Hc Hl']; subst. cbn in Hc. destruct Hc as [H1 [H2 H3]].
+    destruct (enc_var a vp) as [[ta vp1]|] eqn:Ea; [|discriminate].
+    destruct (enc_var b vp1) as [[tb vp2]|] eqn:Eb; [|discriminate].
+    destruct (enc_icons ics vp2) as [[ts vp3]|] eqn:Ei; [|discriminate].
+    inversion Henc; subst. clear Henc.
+    destruct fuel as [|fuel]; [cbn in Hfuel; lia|].
+    destruct (enc_dec_var vp0 a vp vars ta vp1 (TSYM rel :: tb ++ ts ++ TRA :: rest) Hok HR H1 Ea I)
+      as [vars1 [Hd1 [HR1 Hok1]]].
+    destruct (enc_dec_var vp0 b vp1 vars1 tb vp2 (ts ++ TRA :: rest) Hok1 HR1 H3 Eb (enc_icons_head _ _ _ _ _ Ei))
+      as [vars2 [Hd2 [HR2 Hok2]]].
+    destruct (IH (acc ++ [(a, rel, b)]) vp2 vars2 ts vp' fuel rest Hl' Hok2 HR2 Ei) as [vars' [Hd [HR' Hok']]].
+    { rewrite app_length in Hfuel. cbn [length] in Hfuel. rewrite app_length in Hfuel. lia. }
+    exists vars'. split; [|split; assumption].
+    destruct (enc_var_head _ _ _ _ Ea) as [t Ht].
+    assert (Hshape : (ta ++ TSYM rel :: tb ++ ts) ++ TRA :: rest = ta ++ TSYM rel :: tb ++ ts ++ TRA :: rest).
+    { rewrite <- app_assoc. cbn [app]. rewrite <- app_assoc. reflexivity. }
+    rewrite Hshape. cbn [dec_conses].
+    assert (Hhd : exists t', ta ++ TSYM rel :: tb ++ ts ++ TRA :: rest = TSYM a :: t').
+    { subst ta. eexists. reflexivity. }
+    destruct Hhd as [t' Ht']. rewrite Ht'. rewrite <- Ht'.
+    unfold dec_cons1. rewrite Hd1. rewrite Hd2. rewrite H2. etransitivity; [exact Hd|]. rewrite <- app_assoc. reflexivity.
+Qed.
+
+(* ------------------------------------------------------------------ *)
+(* the whole structure *)
+
+Definition set_top (st : dstate) t := {| ds_top := Some t; ds_index := ds_index st; ds_rels := ds_rels st;
+  ds_hcons := ds_hcons st; ds_icons := ds_icons st; ds_vars := ds_vars st |}.
+Definition set_index (st : dstate) i vars := {| ds_top := ds_top st; ds_index := Some i; ds_rels := ds_rels st;
+  ds_hcons := ds_hcons st; ds_icons := ds_icons st; ds_vars := vars |}.
+Definition set_rels (st : dstate) r vars := {| ds_top := ds_top st; ds_index := ds_index st; ds_rels := r;
+  ds_hcons := ds_hcons st; ds_icons := ds_icons st; ds_vars := vars |}.
+Definition set_hcons (st : dstate) h vars := {| ds_top := ds_top st; ds_index := ds_index st; ds_rels := ds_rels st;
+  ds_hcons := h; ds_icons := ds_icons st; ds_vars := vars |}.
+Definition set_icons (st : dstate) i vars := {| ds_top := ds_top st; ds_index := ds_index st; ds_rels := ds_rels st;
+  ds_hcons := ds_hcons st; ds_icons := i; ds_vars := vars |}.
+
+Lemma feats_top fuel t more st : ascii_lower t = t ->
+  dec_feats (S fuel) (TFEAT TOP_F :: TSYM t :: more) st = dec_feats fuel more (set_top st t).
+Proof. intros H. cbn [dec_feats]. change (ascii_upper TOP_F) with TOP_F. cbn [str_eqb LTOP_F TOP_F]. 
+  change (str_eqb TOP_F LTOP_F || str_eqb TOP_F TOP_F) with true. cbn iota. rewrite H. reflexivity. Qed.
+
+Lemma feats_index fuel ti more st v vars' :
+  dec_var (ti ++ more) (ds_vars st) = Some (v, more, vars') ->
+  dec_feats (S fuel) (TFEAT INDEX_F :: ti ++ more) st = dec_feats fuel more (set_index st v vars').
+Proof. intros H. cbn [dec_feats]. change (ascii_upper INDEX_F) with INDEX_F.
+  change (str_eqb INDEX_F LTOP_F || str_eqb INDEX_F TOP_F) with false. change (str_eqb INDEX_F INDEX_F) with true.
+  cbn iota. rewrite H. reflexivity. Qed.
+
+Lemma feats_rels fuel tr more st rels vars' :
+  dec_rels fuel (tr ++ TRA :: more) (ds_rels st) (ds_vars st) = Some (rels, more, vars') ->
+  dec_feats (S fuel) (TFEAT RELS_F :: TLA :: tr ++ TRA :: more) st = dec_feats fuel more (set_rels st rels vars').
+Proof. intros H. cbn [dec_feats]. change (ascii_upper RELS_F) with RELS_F.
+  change (str_eqb RELS_F LTOP_F || str_eqb RELS_F TOP_F) with false. change (str_eqb RELS_F INDEX_F) with false.
+  change (str_eqb RELS_F RELS_F) with true. cbn iota. rewrite H. reflexivity. Qed.
+
+Lemma feats_hcons fuel th more st hs vars' :
+  dec_conses fuel (th ++ TRA :: more) (ds_hcons st) (ds_vars st) = Some (hs, more, vars') ->
+  dec_feats (S fuel) (TFEAT HCONS_F :: TLA :: th ++ TRA :: more) st = dec_feats fuel more (set_hcons st hs vars').
+Proof. intros H. cbn [dec_feats]. change (ascii_upper HCONS_F) with HCONS_F.
+  change (str_eqb HCONS_F LTOP_F || str_eqb HCONS_F TOP_F) with false. change (str_eqb HCONS_F INDEX_F) with false.
+  change (str_eqb HCONS_F RELS_F) with false. change (str_eqb HCONS_F HCONS_F) with true. cbn iota.
+  rewrite H. reflexivity. Qed.
+
+Lemma feats_icons fuel ti more st ics vars' :
+  dec_conses fuel (ti ++ TRA :: more) (ds_icons st) (ds_vars st) = Some (ics, more, vars') ->
+  dec_feats (S fuel) (TFEAT ICONS_F :: TLA :: ti ++ TRA :: more) st = dec_feats fuel more (set_icons st ics vars').
+Proof. intros H. cbn [dec_feats]. change (ascii_upper ICONS_F) with ICONS_F.
+  change (str_eqb ICONS_F LTOP_F || str_eqb ICONS_F TOP_F) with false. change (str_eqb ICONS_F INDEX_F) with false.
+  change (str_eqb ICONS_F RELS_F) with false. change (str_eqb ICONS_F HCONS_F) with false.
+  change (str_eqb ICONS_F ICONS_F) with true. cbn iota. rewrite H. reflexivity. Qed.
+
+Lemma feats_end fuel more st : dec_feats (S fuel) (TRB :: more) st = Some (st, TRB :: more).
+Proof. reflexivity. Qed.
+
+Lemma not_lb_wrap f b more : not_lb more -> not_lb (wrap f b ++ more).
+Proof. intros H. destruct b; [exact H | exact I]. Qed.
+
+Definition proj_lnk (l : bool) (k : lnk) : lnk := if l && lnk_truthy k then k else LNone.
+
+Definition proj_mrs (l : bool) (m : xmrs) (vars : vprops) : xmrs :=
+  {| xm_top := xm_top m; xm_index := xm_index m; xm_rels := map (proj_ep l) (xm_rels m);
+     xm_hcons := xm_hcons m; xm_icons := xm_icons m; xm_vars := vars;
+     xm_lnk := proj_lnk l (xm_lnk m); xm_surface := if l then xm_surface m else None |}.
+
+Definition opt_lower (o : option str) : Prop := match o with Some s => ascii_lower s = s | None => True end.
+
+Definition mrs_wf (m : xmrs) : Prop :=
+  opt_lower (xm_top m) /\ opt_lower (xm_index m) /\ Forall ep_wf (xm_rels m) /\
+  Forall c3_lower (xm_hcons m) /\ Forall c3_lower (xm_icons m) /\ vp_ok (xm_vars m) /\
+  forallb xep_ok (xm_rels m) = true.
+
+Lemma vp_ok_nil : vp_ok [].
+Proof. split; constructor. Qed.
+
+Lemma R_init vp0 : R vp0 vp0 [].
+Proof. intros v. left. split; reflexivity. Qed.
+
+Lemma xep_ok_proj l e : NoDup (map fst (x_args e)) -> xep_ok (proj_ep l e) = xep_ok e.
+Proof.
+  intros Hnd. unfold xep_ok. cbn [proj_ep x_args].
+  rewrite (dict_get_perm ARG0 (x_args e) (sort_roles (x_args e)) Hnd (Permutation_sym (sort_roles_perm _))).
+  reflexivity.
+Qed.
+
+Lemma length_wrap f b : (length (wrap f b) <= length b + 3)%nat /\ (length b <= length (wrap f b))%nat.
+Proof. destruct b; cbn [wrap length]; [lia|]. rewrite app_length. cbn. lia. Qed.
+
+(* the feature loop on the encoder's body *)
+Lemma feats_all cls l m vp0 ttop tindex vp1 tr vp2 tic vp3 rest fuel :
+  mrs_wf m -> vp_ok vp0 ->
+  ttop = match xm_top m with Some t => [TFEAT TOP_F; TSYM t] | None => [] end ->
+  match xm_index m with
+  | Some i => match enc_var i vp0 with Some (ti, v1) => Some (TFEAT INDEX_F :: ti, v1) | None => None end
+  | None => Some ([], vp0) end = Some (tindex, vp1) ->
+  enc_rels cls l (xm_rels m) vp1 = Some (tr, vp2) ->
+  enc_icons (xm_icons m) vp2 = Some (tic, vp3) ->
+  let body := ttop ++ tindex ++ wrap RELS_F tr ++ wrap HCONS_F (enc_hcons (xm_hcons m)) ++ wrap ICONS_F tic
+              ++ TRB :: rest in
+  (length body < fuel)%nat ->
+  exists vars',
+    dec_feats fuel body {| ds_top := None; ds_index := None; ds_rels := []; ds_hcons := []; ds_icons := []; ds_vars := [] |}
+    = Some ({| ds_top := xm_top m; ds_index := xm_index m; ds_rels := map (proj_ep l) (xm_rels m);
+               ds_hcons := xm_hcons m; ds_icons := xm_icons m; ds_vars := vars' |}, TRB :: rest)
+    /\ R vp0 vp3 vars'.
+Proof.
+  intros [Htop [Hidx [Hrels [Hhc [Hic [_ _]]]]]] Hok0 -> Hei Her Heic body Hfuel. subst body.
+  set (st0 := {| ds_top := None; ds_index := None; ds_rels := []; ds_hcons := []; ds_icons := []; ds_vars := [] |}).
+  (* top *)
+  assert (Htopstep : exists fuel1,
+    (length (tindex ++ wrap RELS_F tr ++ wrap HCONS_F (enc_hcons (xm_hcons m)) ++ wrap ICONS_F tic ++ TRB :: rest) < fuel1)%nat /\
+    dec_feats fuel (match xm_top m with Some t => [TFEAT TOP_F; TSYM t] | None => [] end ++ tindex ++ wrap RELS_F tr ++
+                    wrap HCONS_F (enc_hcons (xm_hcons m)) ++ wrap ICONS_F tic ++ TRB :: rest) st0 =
+    dec_feats fuel1 (tindex ++ wrap RELS_F tr ++ wrap HCONS_F (enc_hcons (xm_hcons m)) ++ wrap ICONS_F tic ++ TRB :: rest)
+      {| ds_top := xm_top m; ds_index := None; ds_rels := []; ds_hcons := []; ds_icons := []; ds_vars := [] |}).
+  { destruct (xm_top m) as [t|].
+    - destruct fuel as [|fuel]; [lia|]. exists fuel. split; [cbn [app length] in Hfuel; lia|].
+      cbn [app]. rewrite feats_top by exact Htop. reflexivity.
+    - exists fuel. split; [exact Hfuel | reflexivity]. }
+  destruct Htopstep as [fuel1 [Hf1 ->]]. clear Hfuel fuel.
+  (* index *)
+  assert (Hidxstep : exists fuel2 vars1,
+    (length (wrap RELS_F tr ++ wrap HCONS_F (enc_hcons (xm_hcons m)) ++ wrap ICONS_F tic ++ TRB :: rest) < fuel2)%nat /\
+    dec_feats fuel1 (tindex ++ wrap RELS_F tr ++ wrap HCONS_F (enc_hcons (xm_hcons m)) ++ wrap ICONS_F tic ++ TRB :: rest)
+      {| ds_top := xm_top m; ds_index := None; ds_rels := []; ds_hcons := []; ds_icons := []; ds_vars := [] |} =
+    dec_feats fuel2 (wrap RELS_F tr ++ wrap HCONS_F (enc_hcons (xm_hcons m)) ++ wrap ICONS_F tic ++ TRB :: rest)
+      {| ds_top := xm_top m; ds_index := xm_index m; ds_rels := []; ds_hcons := []; ds_icons := []; ds_vars := vars1 |}
+    /\ R vp0 vp1 vars1 /\ vp_ok vp1).
+  { destruct (xm_index m) as [i|].
+    - destruct (enc_var i vp0) as [[ti v1]|] eqn:Ev; [|discriminate]. inversion Hei; subst. clear Hei.
+      destruct fuel1 as [|fuel1]; [lia|].
+      destruct (enc_dec_var vp0 i vp0 [] ti vp1
+                  (wrap RELS_F tr ++ wrap HCONS_F (enc_hcons (xm_hcons m)) ++ wrap ICONS_F tic ++ TRB :: rest)
+                  Hok0 (R_init vp0) Hidx Ev) as [vars1 [Hd [HR1 Hok1]]].
+      { apply not_lb_wrap. apply not_lb_wrap. apply not_lb_wrap. exact I. }
+      exists fuel1, vars1. split; [cbn [app length] in Hf1; rewrite app_length in Hf1; lia|].
+      split; [|split; assumption]. cbn [app]. rewrite (feats_index fuel1 ti _ _ i vars1) by exact Hd. reflexivity.
+    - inversion Hei; subst. exists fuel1, []. split; [exact Hf1|]. split; [reflexivity|]. split; [apply R_init | exact Hok0]. }
+  destruct Hidxstep as [fuel2 [vars1 [Hf2 [-> [HR1 Hok1]]]]]. clear Hf1 fuel1.
+  (* rels *)
+  assert (Hrelstep : exists fuel3 vars2,
+    (length (wrap HCONS_F (enc_hcons (xm_hcons m)) ++ wrap ICONS_F tic ++ TRB :: rest) < fuel3)%nat /\
+    dec_feats fuel2 (wrap RELS_F tr ++ wrap HCONS_F (enc_hcons (xm_hcons m)) ++ wrap ICONS_F tic ++ TRB :: rest)
+      {| ds_top := xm_top m; ds_index := xm_index m; ds_rels := []; ds_hcons := []; ds_icons := []; ds_vars := vars1 |} =
+    dec_feats fuel3 (wrap HCONS_F (enc_hcons (xm_hcons m)) ++ wrap ICONS_F tic ++ TRB :: rest)
+      {| ds_top := xm_top m; ds_index := xm_index m; ds_rels := map (proj_ep l) (xm_rels m); ds_hcons := [];
+         ds_icons := []; ds_vars := vars2 |}
+    /\ R vp0 vp2 vars2 /\ vp_ok vp2).
+  { destruct tr as [|t0 tr0] eqn:Etr.
+    - (* no predications *)
+      destruct (xm_rels m) as [|e rels'] eqn:Erels.
+      + cbn in Her. inversion Her; subst. exists fuel2, vars1. cbn [wrap app map]. split; [exact Hf2|].
+        split; [reflexivity | split; assumption].
+      + exfalso. cbn [enc_rels] in Her. destruct (enc_rel cls l e vp1) as [[te v1]|] eqn:Ee; [|discriminate].
+        destruct (enc_rels cls l rels' v1) as [[ts v2]|]; [|discriminate]. inversion Her.
+        destruct (enc_rel_head _ _ _ _ _ _ Ee) as [t ->]. discriminate.
+    - clear Etr. assert (Hw : wrap RELS_F (t0 :: tr0) = TFEAT RELS_F :: TLA :: (t0 :: tr0) ++ [TRA]) by reflexivity.
+      remember (t0 :: tr0) as trr eqn:Etr'. clear Etr' t0 tr0 tr. rename trr into tr.
+      destruct fuel2 as [|fuel2]; [lia|].
+      destruct (enc_dec_rels vp0 cls l (xm_rels m) [] vp1 vars1 tr vp2 fuel2
+                  (wrap HCONS_F (enc_hcons (xm_hcons m)) ++ wrap ICONS_F tic ++ TRB :: rest) Hrels Hok1 HR1 Her)
+        as [vars2 [Hd [HR2 Hok2]]].
+      { rewrite Hw in Hf2. cbn [app length] in Hf2. rewrite !app_length in Hf2. lia. }
+      exists fuel2, vars2. split.
+      { rewrite Hw in Hf2. cbn [app length] in Hf2. rewrite !app_length in Hf2. cbn [length] in Hf2. rewrite !app_length. cbn [length]. lia. }
+      split; [|split; assumption]. rewrite Hw. cbn [app]. rewrite <- app_assoc. cbn [app].
+      rewrite (feats_rels fuel2 tr _ _ (map (proj_ep l) (xm_rels m)) vars2) by exact Hd. reflexivity. }
+  destruct Hrelstep as [fuel3 [vars2 [Hf3 [-> [HR2 Hok2]]]]]. clear Hf2 fuel2.
+  (* hcons *)
+  assert (Hhcstep : exists fuel4 vars3,
+    (length (wrap ICONS_F tic ++ TRB :: rest) < fuel4)%nat /\
+    dec_feats fuel3 (wrap HCONS_F (enc_hcons (xm_hcons m)) ++ wrap ICONS_F tic ++ TRB :: rest)
+      {| ds_top := xm_top m; ds_index := xm_index m; ds_rels := map (proj_ep l) (xm_rels m); ds_hcons := [];
+         ds_icons := []; ds_vars := vars2 |} =
+    dec_feats fuel4 (wrap ICONS_F tic ++ TRB :: rest)
+      {| ds_top := xm_top m; ds_index := xm_index m; ds_rels := map (proj_ep l) (xm_rels m); ds_hcons := xm_hcons m;
+         ds_icons := []; ds_vars := vars3 |}
+    /\ R vp0 vp2 vars3).
+  { destruct (xm_hcons m) as [|h hs] eqn:Eh.
+    - exists fuel3, vars2. cbn [enc_hcons flat_map wrap app]. split; [exact Hf3|]. split; [reflexivity | exact HR2].
+    - rewrite <- Eh in *.
+      assert (Hw : wrap HCONS_F (enc_hcons (xm_hcons m)) = TFEAT HCONS_F :: TLA :: enc_hcons (xm_hcons m) ++ [TRA]).
+      { rewrite Eh. destruct h as [[a b] c]. reflexivity. }
+      destruct fuel3 as [|fuel3]; [lia|].
+      destruct (enc_dec_hcons vp0 vp2 (xm_hcons m) [] vars2 fuel3 (wrap ICONS_F tic ++ TRB :: rest) Hhc HR2) as [vars3 [Hd HR3]].
+      { rewrite Hw in Hf3. cbn [app length] in Hf3. rewrite !app_length in Hf3. lia. }
+      exists fuel3, vars3. split.
+      { rewrite Hw in Hf3. cbn [app length] in Hf3. rewrite !app_length in Hf3. cbn [length] in Hf3. rewrite !app_length. cbn [length]. lia. }
+      split; [|exact HR3]. rewrite Hw. cbn [app]. rewrite <- app_assoc. cbn [app].
+      rewrite (feats_hcons fuel3 _ _ _ (xm_hcons m) vars3) by exact Hd. reflexivity. }
+  destruct Hhcstep as [fuel4 [vars3 [Hf4 [-> HR3]]]]. clear Hf3 fuel3.
+  (* icons *)
+  destruct tic as [|t0 tic0] eqn:Etic.
+  - destruct (xm_icons m) as [|[[a rel] b] ics] eqn:Eics.
+    + cbn in Heic. inversion Heic; subst. cbn [wrap app]. destruct fuel4 as [|fuel4]; [cbn in Hf4; lia|].
+      exists vars3. split; [apply feats_end | exact HR3].
+    + exfalso. cbn [enc_icons] in Heic.
+      destruct (enc_var a vp2) as [[ta v1]|] eqn:Ea; [|discriminate].
+      destruct (enc_var b v1) as [[tb v2]|]; [|discriminate].
+      destruct (enc_icons ics v2) as [[ts v3]|]; [|discriminate]. inversion Heic.
+      destruct (enc_var_head _ _ _ _ Ea) as [t ->]. discriminate.
+  - clear Etic. assert (Hw : wrap ICONS_F (t0 :: tic0) = TFEAT ICONS_F :: TLA :: (t0 :: tic0) ++ [TRA]) by reflexivity.
+    remember (t0 :: tic0) as ticc eqn:Etic'. clear Etic' t0 tic0 tic. rename ticc into tic.
+    destruct fuel4 as [|fuel4]; [lia|].
+    destruct (enc_dec_icons vp0 (xm_icons m) [] vp2 vars3 tic vp3 fuel4 (TRB :: rest) Hic Hok2 HR3 Heic) as [vars4 [Hd [HR4 Hok4]]].
+    { rewrite Hw in Hf4. cbn [app length] in Hf4. rewrite !app_length in Hf4. lia. }
+    exists vars4. split; [|exact HR4]. rewrite Hw. cbn [app]. rewrite <- app_assoc. cbn [app].
+    rewrite (feats_icons fuel4 tic _ _ (xm_icons m) vars4) by exact Hd.
+    destruct fuel4 as [|fuel4].
+    { rewrite Hw in Hf4. cbn [app length] in Hf4. rewrite !app_length in Hf4. cbn [length] in Hf4. lia. }
+    apply feats_end.
+Qed.
+
+Definition feat_or_rb (ts : list stok) : Prop :=
+  match ts with TFEAT _ :: _ => True | TRB :: _ => True | _ => False end.
+
+Lemma feat_or_rb_wrap f b more : feat_or_rb more -> feat_or_rb (wrap f b ++ more).
+Proof. intros H. destruct b; [exact H | exact I]. Qed.
+
+Lemma forallb_xep_ok_proj l rels :
+  Forall ep_wf rels -> forallb xep_ok rels = true -> forallb xep_ok (map (proj_ep l) rels) = true.
+Proof.
+  induction rels as [|e rels IH]; intros Hwf Hok; [reflexivity|].
+  inversion Hwf as [|? ? [_ [_ [Hnd _]]] Hwf']; subst. cbn [map forallb] in *.
+  apply andb_true_iff in Hok. destruct Hok as [H1 H2]. rewrite xep_ok_proj by exact Hnd. rewrite H1. cbn.
+  apply IH; assumption.
+Qed.
+
+(* decoding the encoder's token stream, whatever follows it *)
+Theorem dec_enc_mrs cls p l m toks vp_left rest :
+  mrs_wf m -> enc_mrs_full cls p l m = Some (toks, vp_left) ->
+  exists vars', dec_mrs (toks ++ rest) = Some (proj_mrs l m vars', rest) /\
+    forall v, getp v vp_left = [] -> getp v vars' = sort_props (getp v (if p then xm_vars m else [])).
+Proof.
+  intros Hwf Henc. unfold enc_mrs_full in Henc. cbv zeta in Henc.
+  set (vp0 := if p then xm_vars m else @nil (str * list (str * str))) in *.
+  assert (Hok0 : vp_ok vp0).
+  { subst vp0. destruct p; [apply Hwf | apply vp_ok_nil]. }
+  match type of Henc with match ?X with _ => _ end = _ => destruct X as [[tindex vp1]|] eqn:Hei; [|discriminate] end.
+  destruct (enc_rels cls l (xm_rels m) vp1) as [[tr vp2]|] eqn:Her; [|discriminate].
+  destruct (enc_icons (xm_icons m) vp2) as [[tic vp3]|] eqn:Heic; [|discriminate].
+  inversion Henc; subst toks vp_left. clear Henc.
+  set (ttop := match xm_top m with Some t => [TFEAT TOP_F; TSYM t] | None => [] end).
+  set (body := ttop ++ tindex ++ wrap RELS_F tr ++ wrap HCONS_F (enc_hcons (xm_hcons m)) ++ wrap ICONS_F tic ++ TRB :: rest).
+  destruct (feats_all cls l m vp0 ttop tindex vp1 tr vp2 tic vp3 rest (S (length body)) Hwf Hok0 eq_refl Hei Her Heic)
+    as [vars' [Hd HR]].
+  { fold body. lia. }
+  fold body in Hd.
+  assert (Hbody : feat_or_rb body).
+  { subst body ttop. destruct (xm_top m); [exact I|]. cbn [app].
+    assert (Hti : tindex = [] \/ exists t, tindex = TFEAT INDEX_F :: t).
+    { destruct (xm_index m).
+      - match type of Hei with match ?X with _ => _ end = _ => destruct X as [[ti v1]|]; [|discriminate] end.
+        inversion Hei; subst. right. eexists; reflexivity.
+      - inversion Hei; subst. left; reflexivity. }
+    destruct Hti as [-> | [t ->]]; [|exact I]. cbn [app].
+    apply feat_or_rb_wrap. apply feat_or_rb_wrap. apply feat_or_rb_wrap. exact I. }
+  assert (Hnl : not_lnk body) by (destruct body as [|[] ?]; try exact I; contradiction).
+  assert (Hnd : not_dq body) by (destruct body as [|[] ?]; try exact I; contradiction).
+  exists vars'. split.
+  2:{ intros v Hv. destruct (HR v) as [[H1 H2]|[H1 H2]]; [|exact H2].
+      rewrite H2. change ([] = sort_props (getp v vp0)). rewrite <- H1, Hv. reflexivity. }
+  assert (Hshape : (TLB :: (if l then (if lnk_truthy (xm_lnk m) then [TLNK (xm_lnk m)] else []) ++ enc_surface (xm_surface m) else [])
+                     ++ ttop ++ tindex ++ wrap RELS_F tr ++ wrap HCONS_F (enc_hcons (xm_hcons m)) ++ wrap ICONS_F tic ++ [TRB]) ++ rest
+                   = TLB :: (if l then (if lnk_truthy (xm_lnk m) then [TLNK (xm_lnk m)] else []) ++ enc_surface (xm_surface m) else [])
+                     ++ body).
+  { subst body. cbn [app]. rewrite <- !app_assoc. reflexivity. }
+  rewrite Hshape. clear Hshape.
+  assert (Hfin : forall lk surf,
+            lk = proj_lnk l (xm_lnk m) -> surf = (if l then xm_surface m else None) ->
+            match dec_feats (S (length body)) body
+                    {| ds_top := None; ds_index := None; ds_rels := []; ds_hcons := []; ds_icons := []; ds_vars := [] |} with
+            | Some (st, TRB :: ts4) =>
+                if forallb xep_ok (ds_rels st) then
+                  Some ({| xm_top := ds_top st; xm_index := ds_index st; xm_rels := ds_rels st;
+                           xm_hcons := ds_hcons st; xm_icons := ds_icons st; xm_vars := ds_vars st;
+                           xm_lnk := lk; xm_surface := surf |}, ts4)
+                else None
+            | _ => None
+            end = Some (proj_mrs l m vars', rest)).
+  { intros lk surf -> ->. rewrite Hd. cbn [ds_rels ds_top ds_index ds_hcons ds_icons ds_vars].
+    rewrite forallb_xep_ok_proj by apply Hwf. reflexivity. }
+  unfold dec_mrs. destruct l.
+  - destruct (lnk_truthy (xm_lnk m)) eqn:Et.
+    + cbn [app dec_lnk]. rewrite dec_dq_enc by exact Hnd. apply Hfin; [|reflexivity].
+      unfold proj_lnk. rewrite Et. reflexivity.
+    + cbn [app]. replace (dec_lnk (enc_surface (xm_surface m) ++ body)) with (LNone, enc_surface (xm_surface m) ++ body).
+      2:{ destruct (xm_surface m); cbn; [reflexivity|]. destruct body as [|[] ?]; try reflexivity. contradiction. }
+      rewrite dec_dq_enc by exact Hnd. apply Hfin; [|reflexivity]. unfold proj_lnk. rewrite Et. reflexivity.
+  - cbn [app]. replace (dec_lnk body) with (LNone, body) by (destruct body as [|[] ?]; try reflexivity; contradiction).
+    replace (dec_dq body) with (@None str, body) by (destruct body as [|[] ?]; try reflexivity; contradiction).
+    apply Hfin; reflexivity.
+Qed.
+
+(* ------------------------------------------------------------------ *)
+(* properties are emitted exactly once, on the first mention *)
+
+Lemma getp_del_nil v w vp : vp_ok vp -> getp w vp = [] -> getp w (dict_del v vp) = [].
+Proof.
+  intros Hok H. destruct (str_eqb v w) eqn:E.
+  - apply str_eqb_spec in E. subst. unfold getp. rewrite dict_get_del_same by apply Hok. reflexivity.
+  - unfold getp. rewrite dict_get_del_other; [exact H|]. intros X; subst. rewrite str_eqb_refl in E. discriminate.
+Qed.
+
+Lemma enc_var_clears v vp tv vp' : vp_ok vp -> enc_var v vp = Some (tv, vp') ->
+  getp v vp' = [] /\ (forall w, getp w vp = [] -> getp w vp' = []) /\ vp_ok vp'.
+Proof.
+  intros Hok H. unfold enc_var in H. destruct (dict_get v vp) as [[|q qs]|] eqn:E.
+  - inversion H; subst. split; [unfold getp; rewrite E; reflexivity|]. split; [tauto | exact Hok].
+  - destruct (var_type v); [|discriminate]. inversion H; subst. split.
+    + unfold getp. rewrite dict_get_del_same by apply Hok. reflexivity.
+    + split; [intros w; apply getp_del_nil; exact Hok | apply vp_ok_del; exact Hok].
+  - inversion H; subst. split; [unfold getp; rewrite E; reflexivity|]. split; [tauto | exact Hok].
+Qed.
+
+(* a later mention of the same variable is written bare *)
+Lemma enc_var_bare v vp : getp v vp = [] -> enc_var v vp = Some ([TSYM v], vp).
+Proof. unfold getp, enc_var. destruct (dict_get v vp) as [[|q qs]|]; [reflexivity | discriminate | reflexivity]. Qed.
+
+Lemma enc_args_clears L : forall vp ta vp', vp_ok vp -> enc_args L vp = Some (ta, vp') ->
+  (forall r a, In (r, a) L -> r <> CARG_ROLE -> getp a vp' = []) /\
+  (forall w, getp w vp = [] -> getp w vp' = []) /\ vp_ok vp'.
+Proof.
+  induction L as [|[r a] L IH]; intros vp ta vp' Hok H; cbn [enc_args] in H.
+  - inversion H; subst. split; [intros ? ? []|]. split; [tauto | exact Hok].
+  - destruct (str_eqb r CARG_ROLE) eqn:Ec.
+    + destruct (enc_args L vp) as [[ts v2]|] eqn:Ea; [|discriminate]. inversion H; subst.
+      destruct (IH _ _ _ Hok Ea) as [H1 [H2 H3]]. split; [|split; assumption].
+      intros r' a' [Hin|Hin] Hne; [|eapply H1; eassumption]. inversion Hin; subst.
+      apply str_eqb_spec in Ec. contradiction.
+    + destruct (enc_var a vp) as [[tv vp1]|] eqn:Ev; [|discriminate].
+      destruct (enc_args L vp1) as [[ts v2]|] eqn:Ea; [|discriminate]. inversion H; subst.
+      destruct (enc_var_clears _ _ _ _ Hok Ev) as [Ha [Hm Hok1]].
+      destruct (IH _ _ _ Hok1 Ea) as [H1 [H2 H3]]. split; [|split; [|exact H3]].
+      * intros r' a' [Hin|Hin] Hne; [|eapply H1; eassumption]. inversion Hin; subst. apply H2. exact Ha.
+      * intros w Hw. apply H2. apply Hm. exact Hw.
+Qed.
+
+Definition arg_vars (e : xep) : list str :=
+  flat_map (fun kv => if str_eqb (fst kv) CARG_ROLE then [] else [snd kv]) (x_args e).
+
+Definition mentioned (m : xmrs) : list str :=
+  (match xm_index m with Some i => [i] | None => [] end) ++ flat_map arg_vars (xm_rels m) ++
+  flat_map (fun c => let '(a, _, b) := c in [a; b]) (xm_icons m).
+
+Lemma enc_rel_clears cls l e vp te vp' : vp_ok vp -> enc_rel cls l e vp = Some (te, vp') ->
+  (forall a, In a (arg_vars e) -> getp a vp' = []) /\ (forall w, getp w vp = [] -> getp w vp' = []) /\ vp_ok vp'.
+Proof.
+  intros Hok H. unfold enc_rel in H. destruct (enc_args (sort_roles (x_args e)) vp) as [[ta v1]|] eqn:Ea; [|discriminate].
+  inversion H; subst. destruct (enc_args_clears _ _ _ _ Hok Ea) as [H1 [H2 H3]]. split; [|split; assumption].
+  intros a Ha. unfold arg_vars in Ha. apply in_flat_map in Ha. destruct Ha as [[r a'] [Hin Hx]]. cbn [fst snd] in Hx.
+  destruct (str_eqb r CARG_ROLE) eqn:Ec; [destruct Hx|]. destruct Hx as [<-|[]].
+  apply (H1 r a').
+  - eapply Permutation_in; [apply Permutation_sym; apply sort_roles_perm | exact Hin].
+  - intros X; subst. rewrite str_eqb_refl in Ec. discriminate.
+Qed.
+
+Lemma enc_rels_clears cls l rels : forall vp tr vp', vp_ok vp -> enc_rels cls l rels vp = Some (tr, vp') ->
+  (forall a, In a (flat_map arg_vars rels) -> getp a vp' = []) /\ (forall w, getp w vp = [] -> getp w vp' = []) /\ vp_ok vp'.
+Proof.
+  induction rels as [|e rels IH]; intros vp tr vp' Hok H; cbn [enc_rels] in H.
+  - inversion H; subst. split; [intros ? []|]. split; [tauto | exact Hok].
+  - destruct (enc_rel cls l e vp) as [[te vp1]|] eqn:Ee; [|discriminate].
+    destruct (enc_rels cls l rels vp1) as [[ts vp2]|] eqn:Er; [|discriminate]. inversion H; subst.
+    destruct (enc_rel_clears _ _ _ _ _ _ Hok Ee) as [H1 [H2 H3]].
+    destruct (IH _ _ _ H3 Er) as [K1 [K2 K3]]. split; [|split; [|exact K3]].
+    + intros a Ha. cbn [flat_map] in Ha. apply in_app_iff in Ha. destruct Ha as [Ha|Ha]; [apply K2; apply H1; exact Ha | apply K1; exact Ha].
+    + intros w Hw. apply K2. apply H2. exact Hw.
+Qed.
+
+Lemma enc_icons_clears ics : forall vp ti vp', vp_ok vp -> enc_icons ics vp = Some (ti, vp') ->
+  (forall a, In a (flat_map (fun c : cons3 => let '(a, _, b) := c in [a; b]) ics) -> getp a vp' = []) /\
+  (forall w, getp w vp = [] -> getp w vp' = []) /\ vp_ok vp'.
+Proof.
+  induction ics as [|[[a rel] b] ics IH]; intros vp ti vp' Hok H; cbn [enc_icons] in H.
+  - inversion H; subst. split; [intros ? []|]. split; [tauto | exact Hok].
+  - destruct (enc_var a vp) as [[ta vp1]|] eqn:Ea; [|discriminate].
+    destruct (enc_var b vp1) as [[tb vp2]|] eqn:Eb; [|discriminate].
+    destruct (enc_icons ics vp2) as [[ts vp3]|] eqn:Ei; [|discriminate]. inversion H; subst.
+    destruct (enc_var_clears _ _ _ _ Hok Ea) as [Ha [Hma Hok1]].
+    destruct (enc_var_clears _ _ _ _ Hok1 Eb) as [Hb [Hmb Hok2]].
+    destruct (IH _ _ _ Hok2 Ei) as [K1 [K2 K3]]. split; [|split; [|exact K3]].
+    + intros x Hx. cbn [flat_map app In] in Hx. destruct Hx as [<-|[<-|Hx]].
+      * apply K2. apply Hmb. exact Ha.
+      * apply K2. exact Hb.
+      * apply K1. exact Hx.
+    + intros w Hw. apply K2. apply Hmb. apply Hma. exact Hw.
+Qed.
+
+Theorem enc_mrs_clears cls l m toks vp_left :
+  vp_ok (xm_vars m) -> enc_mrs_full cls true l m = Some (toks, vp_left) ->
+  (forall v, In v (mentioned m) -> getp v vp_left = []) /\
+  (forall v, getp v (xm_vars m) = [] -> getp v vp_left = []).
+Proof.
+  intros Hok Henc. unfold enc_mrs_full in Henc. cbv zeta in Henc.
+  match type of Henc with match ?X with _ => _ end = _ => destruct X as [[tindex vp1]|] eqn:Hei; [|discriminate] end.
+  destruct (enc_rels cls l (xm_rels m) vp1) as [[tr vp2]|] eqn:Her; [|discriminate].
+  destruct (enc_icons (xm_icons m) vp2) as [[tic vp3]|] eqn:Heic; [|discriminate].
+  inversion Henc; subst toks vp_left. clear Henc.
+  assert (H1 : (forall v, In v (match xm_index m with Some i => [i] | None => [] end) -> getp v vp1 = []) /\
+               (forall w, getp w (xm_vars m) = [] -> getp w vp1 = []) /\ vp_ok vp1).
+  { destruct (xm_index m) as [i|].
+    - destruct (enc_var i (xm_vars m)) as [[ti v1]|] eqn:Ev; [|discriminate]. inversion Hei; subst.
+      destruct (enc_var_clears _ _ _ _ Hok Ev) as [Ha [Hm Hok1]]. split; [|split; assumption].
+      intros v [<-|[]]. exact Ha.
+    - inversion Hei; subst. split; [intros ? []|]. split; [tauto | exact Hok]. }
+  destruct H1 as [I1 [I2 I3]].
+  destruct (enc_rels_clears _ _ _ _ _ _ I3 Her) as [J1 [J2 J3]].
+  destruct (enc_icons_clears _ _ _ _ J3 Heic) as [K1 [K2 K3]].
+  split.
+  - intros v Hv. unfold mentioned in Hv. rewrite !in_app_iff in Hv. destruct Hv as [Hv|[Hv|Hv]].
+    + apply K2. apply J2. apply I1. exact Hv.
+    + apply K2. apply J1. exact Hv.
+    + apply K1. exact Hv.
+  - intros v Hv. apply K2. apply J2. apply I2. exact Hv.
+Qed.
+
+(* lossless: when every variable that has properties is mentioned, every
+   variable's decoded properties are the original ones in priority order *)
+Theorem dec_enc_mrs_lossless cls l m toks vp_left rest :
+  mrs_wf m -> enc_mrs_full cls true l m = Some (toks, vp_left) ->
+  (forall v, getp v (xm_vars m) <> [] -> In v (mentioned m)) ->
+  exists vars', dec_mrs (toks ++ rest) = Some (proj_mrs l m vars', rest) /\
+    forall v, getp v vars' = sort_props (getp v (xm_vars m)).
+Proof.
+  intros Hwf Henc Hexpr.
+  destruct (dec_enc_mrs cls true l m toks vp_left rest Hwf Henc) as [vars' [Hd Hv]].
+  exists vars'. split; [exact Hd|]. intros v. apply Hv.
+  destruct (enc_mrs_clears cls l m toks vp_left (proj1 (proj2 (proj2 (proj2 (proj2 (proj2 Hwf)))))) Henc) as [C1 C2].
+  destruct (getp v (xm_vars m)) as [|q qs] eqn:E.
+  - apply C2. exact E.
+  - apply C1. apply Hexpr. rewrite E. discriminate.
+Qed.
+
+(* with properties suppressed no variable carries any *)
+Theorem dec_enc_mrs_noprops cls l m toks vp_left rest :
+  mrs_wf m -> enc_mrs_full cls false l m = Some (toks, vp_left) ->
+  exists vars', dec_mrs (toks ++ rest) = Some (proj_mrs l m vars', rest) /\ forall v, getp v vars' = [].
+Proof.
+  intros Hwf Henc.
+  destruct (dec_enc_mrs cls false l m toks vp_left rest Hwf Henc) as [vars' [Hd Hv]].
+  exists vars'. split; [exact Hd|]. intros v. rewrite Hv; [reflexivity|].
+  (* nothing is left to emit because nothing was there *)
+  clear Hd Hv. unfold enc_mrs_full in Henc. cbv zeta in Henc.
+  match type of Henc with match ?X with _ => _ end = _ => destruct X as [[tindex vp1]|] eqn:Hei; [|discriminate] end.
+  destruct (enc_rels cls l (xm_rels m) vp1) as [[tr vp2]|] eqn:Her; [|discriminate].
+  destruct (enc_icons (xm_icons m) vp2) as [[tic vp3]|] eqn:Heic; [|discriminate].
+  inversion Henc; subst toks vp_left. clear Henc.
+  assert (H1 : (forall w, getp w vp1 = []) /\ vp_ok vp1).
+  { destruct (xm_index m) as [i|].
+    - cbn [enc_var dict_get] in Hei. inversion Hei; subst. split; [reflexivity | apply vp_ok_nil].
+    - inversion Hei; subst. split; [reflexivity | apply vp_ok_nil]. }
+  destruct H1 as [I2 I3].
+  destruct (enc_rels_clears _ _ _ _ _ _ I3 Her) as [J1 [J2 J3]].
+  destruct (enc_icons_clears _ _ _ _ J3 Heic) as [K1 [K2 K3]].
+  apply K2. apply J2. apply I2.
+Qed.
+
+(* ------------------------------------------------------------------ *)
+(* the hypotheses are satisfiable: "Kim's dog barks" with properties on two
+   variables, an alignment of every kind, a quoted predicate and an
+   individual constraint *)
+
+Definition s (l : list N) : str := l.
+Definition ex_m : xmrs :=
+  {| xm_top := Some [104;48]%N; xm_index := Some [101;50]%N;
+     xm_rels :=
+       [ {| x_pred := [110;97;109;101;100]%N; x_label := [104;52]%N;
+            x_args := [([67;65;82;71]%N, [75;34;105;109]%N); ([65;82;71;48]%N, [120;51]%N)];
+            x_lnk := LChar 0 3; x_surface := Some [75;105;109]%N |};
+         {| x_pred := [95;97;32;98;95;110;95;49]%N; x_label := [104;54]%N;
+            x_args := [([65;82;71;49]%N, [120;51]%N); ([65;82;71;48]%N, [120;53]%N)];
+            x_lnk := LToks [1;2]%Z; x_surface := None |};
+         {| x_pred := [95;98;97;114;107;95;118;95;49]%N; x_label := [104;49]%N;
+            x_args := [([65;82;71;48]%N, [101;50]%N); ([65;82;71;49]%N, [120;53]%N)];
+            x_lnk := LNone; x_surface := None |} ];
+     xm_hcons := [([104;48]%N, [113;101;113]%N, [104;49]%N)];
+     xm_icons := [([101;50]%N, [116;111;112;105;99]%N, [120;53]%N)];
+     xm_vars := [([120;53]%N, [([78;85;77]%N, [115;103]%N); ([80;69;82;83]%N, [51]%N)]);
+                 ([101;50]%N, [([84;69;78;83;69]%N, [112;114;101;115]%N)])];
+     xm_lnk := LChart 0 2; xm_surface := Some [97;34;98]%N |}.
+
+Ltac nodup := repeat (apply NoDup_cons; [cbn; intuition congruence|]); apply NoDup_nil.
+Ltac allof tac := repeat (apply Forall_cons; [tac|]); apply Forall_nil.
+
+Example ex_wf : mrs_wf ex_m.
+Proof.
+  unfold mrs_wf, ex_m. cbn [xm_top xm_index xm_rels xm_hcons xm_icons xm_vars].
+  split; [reflexivity|]. split; [reflexivity|].
+  split.
+  { allof ltac:(unfold ep_wf; cbn [x_pred x_label x_args];
+                split; [reflexivity|]; split; [reflexivity|]; split; [cbn [map fst]; nodup|];
+                allof ltac:(split; [reflexivity | first [intros _; reflexivity | intros H; exfalso; apply H; reflexivity]])). }
+  split; [allof ltac:(cbn; repeat split; reflexivity)|].
+  split; [allof ltac:(cbn; repeat split; reflexivity)|].
+  split; [|reflexivity].
+  split; [cbn [map fst]; nodup|].
+  allof ltac:(cbn [snd]; split; [cbn [map fst]; nodup | allof ltac:(split; reflexivity)]).
+Qed.
+
+Example ex_expressible : forall v, getp v (xm_vars ex_m) <> [] -> In v (mentioned ex_m).
+Proof.
+  intros v. unfold getp. cbn [xm_vars ex_m dict_get].
+  destruct (str_eqb [120; 53]%N v) eqn:E1; [apply str_eqb_spec in E1; subst; intros _; cbn; tauto|].
+  destruct (str_eqb [101; 50]%N v) eqn:E2; [apply str_eqb_spec in E2; subst; intros _; cbn; tauto|].
+  intros H; contradiction H; reflexivity.
+Qed.
+
+Example ex_encodes : exists toks vp, enc_mrs_full (fun _ => false) true true ex_m = Some (toks, vp) /\ length toks = 65%nat.
+Proof. eexists. eexists. split; vm_compute; reflexivity. Qed.
+
+Lemma first_mention_only v vp tv vp' : vp_ok vp -> enc_var v vp = Some (tv, vp') ->
+  getp v vp' = [] /\ enc_var v vp' = Some ([TSYM v], vp').
+Proof.
+  intros Hok H. destruct (enc_var_clears v vp tv vp' Hok H) as [H1 _].
+  split; [exact H1 | exact (enc_var_bare v vp' H1)].
+Qed.
+
+Lemma sorts_are_permutations (ps args : list (str * str)) :
+  Permutation (sort_props ps) ps /\ Permutation (sort_roles args) args.
+Proof. split; [apply sort_props_perm | apply sort_roles_perm]. Qed.
